@@ -1,4 +1,5 @@
 """C10 MTBDD arithmetic — terminal/base cases of every operator (E-TABLE) ..."""
+import eeval
 import ecache
 import ewrap
 import kinds
@@ -46,4 +47,12 @@ def run(ctx):
                 "pre_gc/post_gc bracket): the apply cache holds uncounted terminal edges, so a terminal sweep from anywhere "
                 "else lets a cached result name a reused slot.")
     ewho.run(ctx, F)
+    ctx.explain("E-EVAL: eval_edge is interpreted in two single steps -- one iteration of the argument loop (the entry of "
+                "var_to_level(var) ends up holding an encoding of the value that does not depend on its previous content: "
+                "the value given last counts; other entries untouched; ZBDD: the counter of true variables is kept exact) and "
+                "one call of `inner` (recurses once into the child for the stored value -- true: first, false: last, "
+                "unknown: middle -- with the same table; complement flag / counter handed down correctly; terminals "
+                "yield their value), plus the initial call and the multi-threaded delegation.")
+    n = eeval.run(ctx, F, only=("mtbdd",))
+    ctx.floor("E-EVAL", "interpreted eval situations", n, 6)
     ctx.not_decided = "non-overflow arithmetic of the terminal types, Div rounding, float behaviour"
